@@ -512,7 +512,7 @@ func checkC10(r *Run) {
 				return
 			}
 			if ld, ok := cc.Args[0].(*ssa.UnOp); ok {
-				if fa, ok := ld.X.(*ssa.FieldAddr); ok && typeName(fa.X.Type()) == "signaller" {
+				if fa, ok := ld.X.(*ssa.FieldAddr); ok && inSignaller(fa) {
 					deletes = true
 				}
 			}
